@@ -33,6 +33,13 @@ def field_types(idx: PyIndex, cid: str, attr: str) -> set:
                     ts = idx.ann_classes(c.module, a.annotation)
                     if ts:
                         return ts
+            # self.attr: List['T'] = ...   annotated where it is first bound
+            for st in ast.walk(init.node):
+                if isinstance(st, ast.AnnAssign) and isinstance(st.target, ast.Attribute) and isinstance(st.target.value, ast.Name) and st.target.value.id == 'self' \
+                        and st.target.attr == attr:
+                    ts = idx.ann_classes(c.module, st.annotation)
+                    if ts:
+                        return ts
         p = c.props.get(attr)
         if p is not None and p.node.returns is not None:
             return idx.ann_classes(c.module, p.node.returns)
